@@ -462,7 +462,7 @@ class Interp(ExprMixin, CallMixin):
 
         def cont(s, v):
             ev = self._to_exc(s, v, site)
-            s.emit("R", ev.cls, site)
+            s.emit("R", ev.cls, self.via(), site)
             return [Outcome("exc", s, ev)]
         return self._ev(stmt.exc, st, frame, cont)
 
